@@ -1,70 +1,37 @@
-import QR.Model.Penalty
-import QR.Spec.Penalty
+import QR.Proofs.Penalty
 /-
-C08 - Model.lostPoint = the ISO penalty for every matrix.  Rule 3 (Horspool-skipping scanner = plain window count)
-is proved here for every line; rules 1, 2, 4 and the 2-D composition are under construction.
+C08 - the penalty score the library uses to rank masks equals the ISO 18004 definition, for EVERY square matrix
+(any side n ≥ 1, not only QR sizes).  Model.lostPoint mirrors util.lost_point with its histogram, `next(iter)` skipping
+and Horspool shift; Spec.penalty is the plain ISO count (runs, 2x2 blocks, 11-module windows, 5 % steps).
+Rule 4 of the model is the integer form of the code's float formula (tied exhaustively over all QR sizes x dark counts
+by the correspondence check).
 -/
 namespace QR.Props
 open QR QR.Model
 
-theorem windows3_short (l : List Bool) (h : l.length < 11) : Spec.windows3 l = 0 := by
-  induction l with
-  | nil => rfl
-  | cons x t ih =>
-    simp only [List.length_cons] at h
-    have h1 : ((x :: t).take 11).length < 11 := by simp [List.length_take]; omega
-    have e1 : (x :: t).take 11 ≠ Spec.pat1 := fun e => by rw [e] at h1; simp [Spec.pat1] at h1
-    have e2 : (x :: t).take 11 ≠ Spec.pat2 := fun e => by rw [e] at h1; simp [Spec.pat2] at h1
-    rw [Spec.windows3, if_neg (by intro h; cases h with | inl h => exact e1 h | inr h => exact e2 h), ih (by omega)]
+/-- **C08**: `lost_point(M) = N1 + N2 + N3 + N4` for every n x n Boolean matrix, n ≥ 1 -/
+theorem C08_lost_point (M : BMat) (n : Nat) (hn : 1 ≤ n) (hlen : M.length = n) (hrow : ∀ row ∈ M, row.length = n) :
+    lostPoint M = Spec.penalty M :=
+  QR.Proofs.Penalty.lostPoint_eq_penalty M n hn hlen hrow
 
-theorem cond3_eq : ∀ a0 a1 a2 a3 a4 a5 a6 a7 a8 a9 a10 : Bool,
-    decide ([a0,a1,a2,a3,a4,a5,a6,a7,a8,a9,a10] = Spec.pat1 ∨ [a0,a1,a2,a3,a4,a5,a6,a7,a8,a9,a10] = Spec.pat2)
-      = cond3 a0 a1 a2 a3 a4 a5 a6 a7 a8 a9 a10 := by decide
+/-- rule 1 alone: runs of L ≥ 5 same-colour modules score L − 2 (rows and columns) -/
+theorem C08_rule1 (M : BMat) (n : Nat) (hlen : M.length = n) (hrow : ∀ row ∈ M, row.length = n) :
+    level1 M n = Spec.N1 M n := QR.Proofs.Penalty.level1_eq M n hlen hrow
 
-theorem skip_sound : ∀ a1 a2 a3 a4 a5 a6 a7 a8 a9 a11 : Bool,
-    cond3 a1 a2 a3 a4 a5 a6 a7 a8 a9 true a11 = false := by decide
+/-- rule 2 alone: 3 per monochrome 2x2 block; the column skipping of the scanner is sound (any row lengths) -/
+theorem C08_rule2 (M : BMat) : level2 M = Spec.N2 M := QR.Proofs.Penalty.level2_eq M
 
-theorem windows3_cons11 (a0 a1 a2 a3 a4 a5 a6 a7 a8 a9 a10 : Bool) (t : List Bool) :
-    Spec.windows3 (a0::a1::a2::a3::a4::a5::a6::a7::a8::a9::a10::t) =
-      (if cond3 a0 a1 a2 a3 a4 a5 a6 a7 a8 a9 a10 then 1 else 0) + Spec.windows3 (a1::a2::a3::a4::a5::a6::a7::a8::a9::a10::t) := by
-  rw [Spec.windows3]
-  have hc := cond3_eq a0 a1 a2 a3 a4 a5 a6 a7 a8 a9 a10
-  have ht : (a0::a1::a2::a3::a4::a5::a6::a7::a8::a9::a10::t).take 11 = [a0,a1,a2,a3,a4,a5,a6,a7,a8,a9,a10] := by
-    simp [List.take]
-  rw [ht]
-  by_cases hp : ([a0,a1,a2,a3,a4,a5,a6,a7,a8,a9,a10] = Spec.pat1 ∨ [a0,a1,a2,a3,a4,a5,a6,a7,a8,a9,a10] = Spec.pat2)
-  · have : cond3 a0 a1 a2 a3 a4 a5 a6 a7 a8 a9 a10 = true := by rw [← hc]; exact decide_eq_true hp
-    rw [if_pos hp, this]; rfl
-  · have : cond3 a0 a1 a2 a3 a4 a5 a6 a7 a8 a9 a10 = false := by rw [← hc]; exact decide_eq_false hp
-    rw [if_neg hp, this]; rfl
+/-- rule 3 alone: 40 per 1:1:3:1:1 window with four light modules on one side; the Horspool skip is sound -/
+theorem C08_rule3 (M : BMat) (n : Nat) : level3 M n = Spec.N3 M n := QR.Proofs.Penalty.level3_eq M n
 
-theorem windows3_after_dark (a1 a2 a3 a4 a5 a6 a7 a8 a9 : Bool) (t : List Bool) :
-    Spec.windows3 (a1::a2::a3::a4::a5::a6::a7::a8::a9::true::t) = Spec.windows3 (a2::a3::a4::a5::a6::a7::a8::a9::true::t) := by
-  cases t with
-  | nil => rw [windows3_short _ (by simp), windows3_short _ (by simp)]
-  | cons a11 t => rw [windows3_cons11, skip_sound]; simp
+/-- rule 4 alone (integer form): 10 per full 5 % step of the dark proportion away from 50 % -/
+theorem C08_rule4 (M : BMat) (n : Nat) (hn : 0 < n) (hlen : M.length = n) (hrow : ∀ row ∈ M, row.length = n) :
+    level4 M n = Spec.N4 M n :=
+  QR.Proofs.Penalty.level4_eq M n hn (QR.Proofs.Penalty.darkCount_le M n hlen hrow)
 
-/-- rule 3, every line of every length: the scanner with the Horspool skip scores 40 per ISO window -/
-theorem C08_rule3_line (l : List Bool) : l3scan l = 40 * Spec.windows3 l := by
-  induction l using l3scan.induct with
-  | case1 a0 a1 a2 a3 a4 a5 a6 a7 a8 a9 a10 t ih1 ih2 =>
-    rw [l3scan, windows3_cons11]
-    cases a10 with
-    | true =>
-      simp only [if_true]
-      rw [ih1, windows3_after_dark]
-      split <;> omega
-    | false =>
-      simp only [Bool.false_eq_true, if_false]
-      rw [ih2]
-      split <;> omega
-  | case2 l h =>
-    rw [l3scan]
-    · rw [windows3_short]
-      match l, h with
-      | [], _ | [_], _ | [_,_], _ | [_,_,_], _ | [_,_,_,_], _ | [_,_,_,_,_], _ | [_,_,_,_,_,_], _
-      | [_,_,_,_,_,_,_], _ | [_,_,_,_,_,_,_,_], _ | [_,_,_,_,_,_,_,_,_], _ | [_,_,_,_,_,_,_,_,_,_], _ => simp
-      | a0::a1::a2::a3::a4::a5::a6::a7::a8::a9::a10::t, h => exact absurd rfl (h a0 a1 a2 a3 a4 a5 a6 a7 a8 a9 a10 t)
-    · exact h
+/-- non-vacuity: a 6x6 matrix with a long run, a 2x2 block and a skewed dark ratio satisfies the hypotheses and has a positive ISO score -/
+example : let M : BMat := [[true,true,true,true,true,true],[true,true,false,false,false,false],[false,true,false,true,false,true],
+                           [true,false,true,false,true,false],[false,false,false,false,false,true],[true,false,true,true,false,true]]
+    M.length = 6 ∧ (∀ row ∈ M, row.length = 6) ∧ 0 < Spec.penalty M := by decide
 
 end QR.Props
